@@ -276,6 +276,10 @@ def _ops():
     op("triangle.circumcenter", (2, 3), ("tri",), lambda g: g.circumcenter, coll=False)
     op("triangle.area", (2, 3), ("tri",), lambda g: g.area, coll=False)
     op("tetrahedron.volume", (3,), ("tet",), lambda g: g.volume, coll=False)
+    # more objects than the dimension requires: the first ones dependent, a later one decides
+    op("is_collinear(p,q,mid,r)", (2,), ("p0", "p1", "p2"), lambda a, b, c: G.is_collinear(a, b, G.Point(a.normalized_array + b.normalized_array), c), coll=False)
+    op("is_coplanar(p,q,r,centroid,s)", (3,), ("p0", "p1", "p2", "p3"), lambda a, b, c, e: G.is_coplanar(a, b, c, G.Point(a.normalized_array + b.normalized_array + c.normalized_array), e), coll=False)
+    op("is_concurrent(l,m,l+m,k)", (2,), ("l0", "l1", "l2"), lambda a, b, c: G.is_concurrent(a, b, G.Line(a.array + b.array), c), coll=False)
     # auxiliary points and bases of subspaces (the general point is not unique: its defining relation is the observable)
     op("l.contains(l.general_point)", (2, 3), ("l0",), lambda l: l.contains(l.general_point))
     op("e.contains(e.general_point)", (3,), ("e0",), lambda e: e.contains(e.general_point))
